@@ -892,3 +892,16 @@ Theorem C18_checked_reader_file_order : forall D, wf_keys D -> forall fs fs',
      (forall e r r', In e (d_enums D) -> lookup S (enum_key e) = Some (Linked r) -> lookup S' (enum_key e) = Some (Linked r') -> r = r')).
 Proof. exact o_reflect_checked_order. Qed.
 Print Assumptions C18_checked_reader_file_order.
+
+(* towards the two equivalences for the checked functions (NOT proved: "the keys a build adds are exactly
+   those reachable from the message and absent before"): ClientProperties reads the set only on keys
+   reachable through flattened fields, so two sets that agree on a key set closed under flatten targets
+   give the same run *)
+Theorem C18_client_properties_read_only_the_flatten_closure : forall S S' (P : ref -> Prop),
+  (forall k, P k -> lookup S k = lookup S' k) ->
+  (forall k n d en am ps, P k -> lookup S k = Some (Linked (RObject n d en am ps)) ->
+     forall t, In t (flat_targets ps) -> P t) ->
+  forall f ps, (forall t, In t (flat_targets ps) -> P t) ->
+  client_props f S ps = client_props f S' ps.
+Proof. exact client_props_agree. Qed.
+Print Assumptions C18_client_properties_read_only_the_flatten_closure.
